@@ -19,9 +19,12 @@ import (
 	"math/bits"
 	"os"
 	"path/filepath"
+	"sort"
 	"strconv"
 	"strings"
 	"testing"
+	"testing/synctest"
+	"time"
 
 	"github.com/ollama/ollama/api"
 	"github.com/ollama/ollama/discover"
@@ -462,6 +465,8 @@ type vpCfg struct {
 	Spread     bool       `json:"spread,omitempty"`
 	Overhead   uint64     `json:"overhead"`
 	Tag        string     `json:"tag,omitempty"`
+	Embed      bool       `json:"embed,omitempty"`  // <arch>.pooling_type present: no completion capability
+	Mllama     bool       `json:"mllama,omitempty"` // Config.ModelFamilies contains "mllama"
 }
 
 type vpLoaded struct {
@@ -491,13 +496,17 @@ func vpWrite(path, arch string, kv ggml.KV, ts []vpTensor) {
 func vpLoad(dir string, cfg *vpCfg) *vpLoaded {
 	l := &vpLoaded{path: filepath.Join(dir, "model.gguf")}
 	a := cfg.Arch
-	vpWrite(l.path, a, ggml.KV{
+	mkv := ggml.KV{
 		a + ".block_count":             uint32(cfg.Blocks),
 		a + ".embedding_length":        cfg.Emb,
 		a + ".attention.head_count":    cfg.Heads,
 		a + ".attention.head_count_kv": cfg.HeadsKV,
 		a + ".context_length":          uint32(8192),
-	}, cfg.Tensors)
+	}
+	if cfg.Embed {
+		mkv[a+".pooling_type"] = uint32(1)
+	}
+	vpWrite(l.path, a, mkv, cfg.Tensors)
 	g, err := llm.LoadModel(l.path, 0)
 	if err != nil {
 		panic(err)
@@ -986,6 +995,522 @@ func TestVerifC16Pick(t *testing.T) {
 			vpGenGPUs(rr, cfg, need)
 			vpRun(out, cfg, l, variant)
 			cases++
+		}
+		os.RemoveAll(dir)
+	}
+}
+
+// ---------------------------------------------------------------------------------------------
+// the scheduler's load path: the REAL Scheduler.processPending (GPU branch) on histories of requests
+//
+// One case = one scheduling attempt of the real processPending (under testing/synctest) for a model that is not
+// loaded, with `loadFn` replaced by a recorder: inventory from getGpuFn, runners in s.loaded (loading flags, the
+// GPUs they were provisioned on, per-GPU predictions).  A history = a sequence of requests for further models on
+// the same scheduler state (the recorder installs the runner the way Scheduler.load does; an eviction removes the
+// runner the real code picked; a delay lets the loading runners finish).
+//
+//   L1: the decision (load full/partial on which GPUs in which order with which adjusted free figures and
+//       numParallel | evict | delay) == oracle `c16load` (model `loadDecision`: filterGPUsWithoutLoadingModels,
+//       updateFreeSpace, pickBestFullFitByLibrary / pickBestPartialFitByLibrary and the glue between them).
+//   L2 (model-independent, real estimator on the very arguments of loadFn):
+//       `load-exceeds-reported`  size + overhead > the free memory the GPU REPORTED for this request;
+//       `load-exceeds-total`     sum over all loaded runners of the sizes planned on a GPU (+ overhead) > its total;
+//       `load-on-loading-gpu`    the new model goes to a GPU on which another model is still loading;
+//       `load-partial-with-loaded` not every requested layer placed although other models are loaded;
+//       `load-parallel`          embedding / mllama model loaded with numParallel != 1.
+
+type vlStep struct {
+	Free    []uint64 `json:"free"`              // FreeMemory every inventory GPU reports at this request
+	RefBusy bool     `json:"busy,omitempty"`    // loaded runners have refCount 1 (nothing idle)
+}
+
+type vlCfg struct {
+	Kind  string   `json:"kind"` // "load"
+	M     vpCfg    `json:"m"`    // model, inventory (Total, Min, Lib, Variants), options, parallel, spread, overhead
+	Steps []vlStep `json:"steps"`
+}
+
+type vlRunner struct {
+	name    string
+	ids     []int // inventory indices of runner.gpus, in order
+	sizes   []uint64
+	loading bool
+}
+
+func vlIdx(id string) int {
+	n, _ := strconv.Atoi(strings.TrimPrefix(id, "G"))
+	return n
+}
+
+type vlOutcome struct {
+	kind   string // load | evict | delay | none
+	gpus   discover.GpuInfoList
+	p      int
+	opts   api.Options
+	victim string
+}
+
+// vlAttempt runs the real processPending once on the given state.
+func vlAttempt(t *testing.T, cfg *vlCfg, l *vpLoaded, step *vlStep, runners []*vlRunner, modelPath string) vlOutcome {
+	var res vlOutcome
+	res.kind = "none"
+	synctest.Test(t, func(t *testing.T) {
+		ctx, cancel := context.WithCancel(context.Background())
+		s := InitScheduler(ctx)
+		inv := vpInventory(&cfg.M)
+		for i := range inv {
+			inv[i].FreeMemory = step.Free[i]
+		}
+		s.getGpuFn = func() discover.GpuInfoList { return append(discover.GpuInfoList(nil), inv...) }
+		s.getCpuFn = func() discover.GpuInfoList { panic("cpu list requested") }
+		s.reschedDelay = time.Millisecond
+		refs := map[string]*runnerRef{}
+		for _, r := range runners {
+			var gl discover.GpuInfoList
+			est := map[string]uint64{}
+			for k, ix := range r.ids {
+				gl = append(gl, inv[ix])
+				if k < len(r.sizes) {
+					if _, dup := est[inv[ix].ID]; !dup {
+						est[inv[ix].ID] = r.sizes[k]
+					}
+				}
+			}
+			ref := &runnerRef{gpus: gl, numParallel: 1, loading: r.loading, modelPath: r.name, sessionDuration: time.Hour,
+				llama: &mockLlm{estimatedVRAMByGPU: est}, model: &Model{ModelPath: r.name}}
+			if step.RefBusy {
+				ref.refCount = 1
+			}
+			refs[r.name] = ref
+			s.loaded[r.name] = ref
+		}
+		called := false
+		s.loadFn = func(req *LlmRequest, f *ggml.GGML, gpus discover.GpuInfoList, numParallel int) {
+			called = true
+			res.gpus = append(discover.GpuInfoList(nil), gpus...)
+			res.p = numParallel
+			res.opts = req.opts
+		}
+		opts := api.DefaultOptions()
+		opts.NumGPU = cfg.M.NumGPU
+		opts.NumBatch = cfg.M.NumBatch
+		opts.NumCtx = cfg.M.OrigNumCtx
+		m := &Model{ModelPath: modelPath, ProjectorPaths: l.projs}
+		if cfg.M.Mllama {
+			m.Config.ModelFamilies = []string{"mllama"}
+		}
+		req := &LlmRequest{ctx: ctx, model: m, opts: opts, successCh: make(chan *runnerRef, 1), errCh: make(chan error, 1)}
+		go s.processPending(ctx)
+		s.pendingReqCh <- req
+		synctest.Wait()
+		switch {
+		case called:
+			res.kind = "load"
+		default:
+			for name, ref := range refs {
+				if ref.sessionDuration == 0 {
+					res.kind, res.victim = "evict", name
+				}
+			}
+			if res.kind == "none" {
+				select {
+				case err := <-req.errCh:
+					res.kind = "err:" + strings.ReplaceAll(err.Error(), " ", "_")
+				default:
+					if req.schedAttempts >= 1 {
+						res.kind = "delay"
+					}
+				}
+			}
+		}
+		cancel()
+		// the fake clock stops when this function returns: let the requeue goroutine of the delay path
+		// (time.Sleep(reschedDelay); pendingReqCh <- pending) run out first
+		time.Sleep(10 * time.Millisecond)
+		synctest.Wait()
+	})
+	return res
+}
+
+func vlOp(cfg *vlCfg, l *vpLoaded, variant int, step *vlStep, runners []*vlRunner) string {
+	var sb strings.Builder
+	b := func(x bool) int {
+		if x {
+			return 1
+		}
+		return 0
+	}
+	ps := []int{defaultParallel, 1}
+	if cfg.M.Parallel > 1 && cfg.M.Parallel != defaultParallel {
+		ps = append(ps, cfg.M.Parallel)
+	}
+	fmt.Fprintf(&sb, "c16load %d %d %d %d %d %d", b(cfg.M.Spread), cfg.M.Parallel, b(cfg.M.Mllama), b(cfg.M.Embed), defaultParallel, len(ps))
+	for _, p := range ps {
+		fmt.Fprintf(&sb, " %d %s", p, vpCommon(&cfg.M, l, variant, cfg.M.OrigNumCtx*p, p))
+	}
+	inv := vpInventory(&cfg.M)
+	keys := map[string]int{}
+	fmt.Fprintf(&sb, " %d", len(inv))
+	for i, x := range inv {
+		k := x.Library
+		if x.Variant != "" {
+			k += "_" + x.Variant
+		}
+		if _, ok := keys[k]; !ok {
+			keys[k] = len(keys)
+		}
+		fmt.Fprintf(&sb, " %d %d %s %d %d %d %d", keys[k], i, vpLibTok(x.Library), step.Free[i], x.MinimumMemory, i, x.TotalMemory)
+	}
+	fmt.Fprintf(&sb, " %d", len(runners))
+	for _, r := range runners {
+		fmt.Fprintf(&sb, " %d %d", b(r.loading), len(r.ids))
+		for _, ix := range r.ids {
+			fmt.Fprintf(&sb, " %d", ix)
+		}
+		fmt.Fprintf(&sb, " %d", len(r.sizes))
+		for _, z := range r.sizes {
+			fmt.Fprintf(&sb, " %d", z)
+		}
+	}
+	return sb.String()
+}
+
+func vlFrees(l discover.GpuInfoList) string {
+	if len(l) == 0 {
+		return "-"
+	}
+	parts := make([]string, len(l))
+	for i, g := range l {
+		parts[i] = strconv.FormatUint(g.FreeMemory, 10)
+	}
+	return strings.Join(parts, ",")
+}
+
+func vlRunHistory(t *testing.T, out *zzverif.Out, cfg *vlCfg, l *vpLoaded, variant int) (cases int) {
+	js, err := json.Marshal(cfg)
+	if err != nil {
+		panic(err)
+	}
+	caseLine := string(js) // accurate-report sentinels (2^64-1) are resolved the same way on replay
+	os.Setenv("OLLAMA_GPU_OVERHEAD", strconv.FormatUint(cfg.M.Overhead, 10))
+	os.Setenv("OLLAMA_SCHED_SPREAD", map[bool]string{false: "", true: "1"}[cfg.M.Spread])
+	os.Setenv("OLLAMA_NUM_PARALLEL", strconv.Itoa(max(cfg.M.Parallel, 0)))
+	os.Setenv("OLLAMA_MAX_LOADED_MODELS", "64")
+	blocks := int(l.f.KV().BlockCount())
+	inv := vpInventory(&cfg.M)
+	var runners []*vlRunner
+	out.Count("load_histories")
+	for si := range cfg.Steps {
+		stepv := vlStep{RefBusy: cfg.Steps[si].RefBusy, Free: append([]uint64(nil), cfg.Steps[si].Free...)}
+		step := &stepv
+		for i := range step.Free {
+			if step.Free[i] == ^uint64(0) { // an accurate driver: total less what the loaded models were planned to use
+				used := uint64(0)
+				for _, r := range runners {
+					for k, rx := range r.ids {
+						if rx == i && k < len(r.sizes) {
+							used += r.sizes[k]
+						}
+					}
+				}
+				step.Free[i] = 0
+				if used <= inv[i].TotalMemory {
+					step.Free[i] = inv[i].TotalMemory - used
+				}
+			}
+		}
+		name := fmt.Sprintf("%s.req%02d", l.path, si)
+		if err := os.Link(l.path, name); err != nil {
+			panic(err)
+		}
+		for attempt := 0; attempt < 8; attempt++ {
+			sort.Slice(runners, func(i, j int) bool { return runners[i].name < runners[j].name })
+			op := vlOp(cfg, l, variant, step, runners)
+			var res vlOutcome
+			impl := ""
+			func() {
+				defer func() {
+					if x := recover(); x != nil {
+						impl = "panic:" + strings.ReplaceAll(fmt.Sprint(x), "\n", " ")
+					}
+				}()
+				res = vlAttempt(t, cfg, l, step, runners, name)
+			}()
+			var e llm.MemoryEstimate
+			wantLayers := func(layers int) bool {
+				if cfg.M.NumGPU < 0 {
+					return layers >= blocks+1
+				}
+				return layers > 0 && layers >= min(cfg.M.NumGPU, blocks+1)
+			}
+			full := false
+			if impl == "" {
+				switch res.kind {
+				case "load":
+					e = llm.EstimateGPULayers(append(discover.GpuInfoList(nil), res.gpus...), l.f, l.projs, res.opts, res.p)
+					full = wantLayers(e.Layers)
+					impl = fmt.Sprintf("load ids=%s free=%s p=%d", vpIds(res.gpus), vlFrees(res.gpus), res.p)
+				default:
+					impl = res.kind
+				}
+			}
+			out.Case(op, impl)
+			cases++
+			out.Count("load_cases")
+			out.Count(fmt.Sprintf("load_runners_%d", len(runners)))
+			nloading := 0
+			for _, r := range runners {
+				if r.loading {
+					nloading++
+				}
+			}
+			if nloading > 0 {
+				out.Count("load_with_loading_runner")
+			}
+			if strings.HasPrefix(impl, "panic:") || strings.HasPrefix(impl, "err:") || impl == "none" {
+				out.L2("panic", caseLine, fmt.Sprintf("step=%d attempt=%d %s", si, attempt, impl))
+				return cases
+			}
+			if res.kind == "evict" {
+				out.Count("load_decision_evict")
+				var keep []*vlRunner
+				for _, r := range runners {
+					if r.name != res.victim {
+						keep = append(keep, r)
+					}
+				}
+				runners = keep
+				continue
+			}
+			if res.kind == "delay" {
+				out.Count("load_decision_delay")
+				for _, r := range runners {
+					r.loading = false
+				}
+				continue
+			}
+			// ---- a load: L2 on the real estimate for the very arguments of loadFn
+			if full {
+				out.Count("load_decision_full")
+			} else {
+				out.Count("load_decision_partial")
+			}
+			if len(res.gpus) > 1 {
+				out.Count("load_multi_gpu")
+			}
+			lowered := false
+			nr := &vlRunner{name: name, loading: true}
+			for i, g := range res.gpus {
+				ix := vlIdx(g.ID)
+				nr.ids = append(nr.ids, ix)
+				if g.FreeMemory < step.Free[ix] {
+					lowered = true
+				}
+				for _, r := range runners {
+					if r.loading {
+						for _, rx := range r.ids {
+							if rx == ix {
+								out.L2("load-on-loading-gpu", caseLine, fmt.Sprintf("step=%d gpu=%s is still loading %s", si, g.ID, filepath.Base(r.name)))
+							}
+						}
+					}
+				}
+				var sz uint64
+				if i < len(e.GPUSizes) {
+					sz = e.GPUSizes[i]
+				}
+				if sz != 0 {
+					need, c := bits.Add64(sz, cfg.M.Overhead, 0)
+					if c != 0 || need > step.Free[ix] {
+						out.L2("load-exceeds-reported", caseLine, fmt.Sprintf("nowrap=true step=%d gpu=%s size=%d overhead=%d reported free=%d adjusted free=%d", si, g.ID, sz, cfg.M.Overhead, step.Free[ix], g.FreeMemory))
+					}
+					used := need
+					for _, r := range runners {
+						for k, rx := range r.ids {
+							if rx == ix && k < len(r.sizes) {
+								used += r.sizes[k]
+							}
+						}
+					}
+					if used > inv[ix].TotalMemory {
+						out.L2("load-exceeds-total", caseLine, fmt.Sprintf("nowrap=true step=%d gpu=%s planned for all loaded models=%d (new %d + overhead %d) total=%d", si, g.ID, used, sz, cfg.M.Overhead, inv[ix].TotalMemory))
+					}
+				}
+			}
+			if lowered {
+				out.Count("load_on_lowered_free")
+			}
+			nr.sizes = append(nr.sizes, e.GPUSizes...)
+			if len(runners) > 0 && !wantLayers(e.Layers) {
+				out.L2("load-partial-with-loaded", caseLine, fmt.Sprintf("step=%d %d other model(s) loaded, yet only %d of %d layers placed (num_gpu=%d) on [%s]", si, len(runners), e.Layers, blocks+1, cfg.M.NumGPU, vpIds(res.gpus)))
+			}
+			if (cfg.M.Embed || cfg.M.Mllama) && res.p != 1 {
+				out.L2("load-parallel", caseLine, fmt.Sprintf("step=%d numParallel=%d for an embedding/mllama model", si, res.p))
+			}
+			out.Count(fmt.Sprintf("load_p_%d", res.p))
+			runners = append(runners, nr)
+			break
+		}
+	}
+	out.Count(fmt.Sprintf("load_final_runners_%d", len(runners)))
+	return cases
+}
+
+func vlGen(r *zzverif.Rng, cfg *vlCfg, need uint64) {
+	m := &cfg.M
+	n := r.Range(1, 4)
+	if r.Chance(1, 6) {
+		n = r.Range(1, 8)
+	}
+	libs := []string{"cuda", "cuda", "rocm", "oneapi", "metal"}
+	lib := zzverif.Pick(r, libs)
+	lib2 := zzverif.Pick(r, libs)
+	mixed := r.Chance(1, 5)
+	m.GPUs, m.Variants = nil, nil
+	mode := zzverif.Pick(r, []int{0, 0, 0, 1, 1, 2, 2, 3})
+	m.Tag = []string{"roomy", "one_each", "split", "tight"}[mode]
+	for i := 0; i < n; i++ {
+		g := vsGPU{Lib: lib, Min: zzverif.Pick(r, []uint64{0, 0, 457 << 20, uint64(r.Intn(256 << 20))})}
+		v := ""
+		if mixed {
+			switch r.Intn(3) {
+			case 0:
+				g.Lib = lib2
+			case 1:
+				v = "v12"
+			}
+		}
+		switch mode {
+		case 0: // several models per GPU
+			g.Total = need/4*uint64(r.Range(5, 24)) + g.Min
+		case 1: // about one model per GPU
+			g.Total = need/16*uint64(r.Range(14, 30)) + g.Min
+		case 2: // a model needs most of the GPUs
+			g.Total = need/uint64(n)/8*uint64(r.Range(7, 20)) + need/16 + g.Min
+		default:
+			g.Total = need/32*uint64(r.Range(1, 40)) + g.Min
+		}
+		m.GPUs = append(m.GPUs, g)
+		m.Variants = append(m.Variants, v)
+	}
+	m.Embed = r.Chance(1, 10)
+	m.Mllama = r.Chance(1, 10)
+	if m.Parallel < 0 {
+		m.Parallel = 0
+	}
+	if m.NumGPU == 0 {
+		m.NumGPU = -1
+	}
+	cfg.Steps = nil
+	ns := r.Range(2, 8)
+	for k := 0; k < ns; k++ {
+		st := vlStep{RefBusy: r.Chance(1, 4)}
+		for i := range m.GPUs {
+			t := m.GPUs[i].Total
+			var f uint64
+			switch r.Intn(8) {
+			case 0, 1: // laggy driver: still reports everything free
+				f = t
+			case 2:
+				f = t / 16 * uint64(r.Range(0, 16))
+			case 3:
+				f = t - t/64*uint64(r.Range(0, 8))
+			default: // an accurate driver report, resolved at run time: total less what the loaded models use
+				f = ^uint64(0)
+			}
+			st.Free = append(st.Free, f)
+		}
+		cfg.Steps = append(cfg.Steps, st)
+	}
+}
+
+func TestVerifC16Load(t *testing.T) {
+	slog.SetDefault(slog.New(slog.NewTextHandler(io.Discard, nil)))
+	t.Setenv("OLLAMA_FLASH_ATTENTION", "")
+	t.Setenv("OLLAMA_KV_CACHE_TYPE", "")
+	t.Setenv("OLLAMA_GPU_OVERHEAD", "0")
+	t.Setenv("OLLAMA_SCHED_SPREAD", "")
+	t.Setenv("OLLAMA_NUM_PARALLEL", "0")
+	t.Setenv("OLLAMA_MAX_LOADED_MODELS", "64")
+	out := zzverif.NewOut()
+	defer out.Close()
+	base := t.TempDir()
+
+	one := func(cfg *vlCfg) {
+		dir, err := os.MkdirTemp(base, "h")
+		if err != nil {
+			t.Fatal(err)
+		}
+		defer os.RemoveAll(dir)
+		l := vpLoad(dir, &cfg.M)
+		vlRunHistory(t, out, cfg, l, vpVariant(l))
+	}
+	if rp := os.Getenv("VERIF_REPLAY"); rp != "" {
+		raw, err := os.ReadFile(rp)
+		if err != nil {
+			t.Fatal(err)
+		}
+		var cfg vlCfg
+		if err := json.Unmarshal(bytes.TrimSpace(raw), &cfg); err != nil || cfg.Kind != "load" {
+			t.Skip("replay case is not a C16 load-path history")
+		}
+		one(&cfg)
+		return
+	}
+	if cd := os.Getenv("VERIF_CORPUS"); cd != "" {
+		files, _ := filepath.Glob(cd + "/load-*.json")
+		for _, fn := range files {
+			raw, err := os.ReadFile(fn)
+			if err != nil {
+				t.Fatal(err)
+			}
+			var cfg vlCfg
+			if err := json.Unmarshal(bytes.TrimSpace(raw), &cfg); err != nil {
+				t.Fatalf("%s: %v", fn, err)
+			}
+			one(&cfg)
+		}
+	}
+	target := zzverif.EnvInt("VERIF_N", 600)
+	root := zzverif.NewRng(zzverif.Seed() ^ 0x10AD)
+	cases := 0
+	for cases < target {
+		r := root.Fork()
+		cfg := &vlCfg{Kind: "load", M: *vpGen(r)}
+		dir, err := os.MkdirTemp(base, "m")
+		if err != nil {
+			t.Fatal(err)
+		}
+		cfg.M.Embed, cfg.M.Mllama = false, false
+		l := vpLoad(dir, &cfg.M)
+		variant := vpVariant(l)
+		os.Setenv("OLLAMA_GPU_OVERHEAD", "0")
+		big := discover.GpuInfo{Library: "cuda", ID: "big"}
+		big.FreeMemory = 1 << 60
+		o := api.DefaultOptions()
+		o.NumCtx = cfg.M.OrigNumCtx
+		o.NumBatch = cfg.M.NumBatch
+		need := llm.EstimateGPULayers([]discover.GpuInfo{big}, l.f, l.projs, o, 1).TotalSize
+		for k := 0; k < 4; k++ {
+			rr := r.Fork()
+			vlGen(rr, cfg, need)
+			if cfg.M.Embed { // the capability is read from the file: rewrite it
+				os.RemoveAll(dir)
+				os.MkdirAll(dir, 0o755)
+				l = vpLoad(dir, &cfg.M)
+			}
+			cases += vlRunHistory(t, out, cfg, l, variant)
+			if cfg.M.Embed {
+				cfg.M.Embed = false
+				os.RemoveAll(dir)
+				os.MkdirAll(dir, 0o755)
+				l = vpLoad(dir, &cfg.M)
+			}
+			// remove the per-request links of this history
+			links, _ := filepath.Glob(l.path + ".req*")
+			for _, ln := range links {
+				os.Remove(ln)
+			}
 		}
 		os.RemoveAll(dir)
 	}
